@@ -160,6 +160,22 @@ Definition read_args_tokens_s (ls : slex) (s : list ch) (ln : Z) : res (list (op
     else Ok (ts, s3, ln3, sl_add_log ls (zs "[ERROR](" ++ show_int ln3 ++ zs ") " ++ msg_en_MissingParenthesis))
   else Ok (ts, s2, ln2, ls).
 
+(* read_for: the increment of a FOR header ends at the ')' that closes the header; parentheses inside it (level) belong
+   to it.  Consumes up to and including that ')', counting lines. *)
+Fixpoint get_token_close (s : list ch) (ln : Z) (level : nat) : list ch * list ch * Z :=
+  match s with
+  | [] => ([], [], ln)
+  | c :: r =>
+      let ln' := if c =? 10 then ln + 1 else ln in
+      if c =? 40 then let '(t, r', ln'') := get_token_close r ln' (S level) in (c :: t, r', ln'')
+      else if c =? 41 then
+        match level with
+        | O => ([], r, ln')
+        | S k => let '(t, r', ln'') := get_token_close r ln' k in (c :: t, r', ln'')
+        end
+      else let '(t, r', ln'') := get_token_close r ln' level in (c :: t, r', ln'')
+  end.
+
 (* read_warning / read_error / read_error_cmd *)
 Definition read_warning_s (ls : slex) (s : list ch) (ln : Z) (cmd reason : list ch) : slex :=
   sl_add_log ls (zs "[WARN](" ++ show_int ln ++ zs ") " ++ msg_en_ScriptSyntaxWarning ++ zs " """ ++ cmd ++ zs """ " ++ reason
@@ -351,14 +367,14 @@ Fixpoint slex_f (fuel : nat) (ls : slex) (src : list ch) (lineno : Z) : res slex
                      let '(cond_s, s3, ln3) := LexCore.get_token_nest s2 ln2 40 41 in
                      do cl <- lex_calc ls cond_s;
                      do cond <- cond_of cl;
-                     let '(s4, ln4) := skip_space s3 ln3 in
+                     let '(s4, ln4) := skip_space_ret s3 ln3 in
                      if negb (eq_char s4 123) then Unsupported U_SYNTAX else
                      let '(then_s, s5, ln5) := LexCore.get_token_nest s4 ln4 123 125 in
                      do th <- slex_f f ls then_s ln4;          (* the block starts on the line of its '{' *)
                      let '(then_tok, ls1) := th in
                      let '(s6, ln6) := skip_space_ret s5 ln5 in
                      if prefixb (zs "ELSE") s6 || prefixb (zs "Else") s6 then
-                       let '(s7, ln7) := skip_space (skipn 4 s6) ln6 in
+                       let '(s7, ln7) := skip_space_ret (skipn 4 s6) ln6 in
                        if negb (eq_char s7 123) then Unsupported U_SYNTAX else
                        let '(else_s, s8, ln8) := LexCore.get_token_nest s7 ln7 123 125 in
                        do el <- slex_f f ls1 else_s ln7;       (* ... the ELSE block on the line of its '{' too *)
@@ -372,7 +388,7 @@ Fixpoint slex_f (fuel : nat) (ls : slex) (src : list ch) (lineno : Z) : res slex
                      let '(cond_s, s3, ln3) := LexCore.get_token_nest s2 ln2 40 41 in
                      do cl <- lex_calc ls cond_s;
                      do cond <- cond_of cl;
-                     let '(s4, ln4) := skip_space s3 ln3 in
+                     let '(s4, ln4) := skip_space_ret s3 ln3 in
                      let '(body_s, s5, ln5) := LexCore.get_token_nest s4 ln4 123 125 in
                      do bd <- slex_f f ls body_s ln4;
                      let '(body_tok, ls1) := bd in
@@ -383,8 +399,8 @@ Fixpoint slex_f (fuel : nat) (ls : slex) (src : list ch) (lineno : Z) : res slex
                      if negb (eq_char s2 40) then Unsupported U_SYNTAX else
                      let '(init_raw, s3, ln3) := get_token_ch 59 (tl s2) ln2 in
                      let '(cond_s, s4, ln4) := get_token_ch 59 s3 ln3 in
-                     let '(inc_s, s5, ln5) := get_token_ch 41 s4 ln4 in
-                     let '(s6, ln6) := skip_space s5 ln5 in
+                     let '(inc_s, s5, ln5) := get_token_close s4 ln4 0 in     (* up to the ')' that closes the header *)
+                     let '(s6, ln6) := skip_space_ret s5 ln5 in
                      if negb (eq_char s6 123) then Unsupported U_SYNTAX else
                      let '(body_s, s7, ln7) := LexCore.get_token_nest s6 ln6 123 125 in
                      let init_t := trim init_raw in
@@ -452,7 +468,7 @@ Fixpoint slex_f (fuel : nat) (ls : slex) (src : list ch) (lineno : Z) : res slex
                            let '(args, s4, ln4, ls') := ra in
                            loop n' ls' s4 ln4 harmony (acc ++ [SCall id args])
                        | Some _ => loop n' ls s2 ln2 harmony acc          (* Empty token "Could not execute" *)
-                       | None => loop n' (read_error_cmd_s ls s2 ln2 word) s2 ln2 harmony acc
+                       | None => loop n' (read_error_cmd_s ls s2 ln word) s2 ln2 harmony acc   (* reported on the line of the word *)
                        end
                end
            else if (c =? 113) || (c =? 118) then Unsupported U_SCMD      (* vAdd / qAdd / q2Add *)
